@@ -285,7 +285,7 @@ def candidates(model):
     """turn a solver model (inputs and havocked loop variables) into constructor calls to try natively"""
     g = lambda k, d=0: model.get(k, d)
     out = []
-    if "y" in model or "m" in model:
+    if "q" not in model:
         out.append([g("y", 1970), g("m", 1), g("d", 1), g("hh"), g("mm"), g("ss")])
         if "cd" in model:
             out.append([g("y", 1970), g("m", 1), g("d", 1), 24 * g("cd"), 0, 0])
